@@ -34,7 +34,7 @@ STATE_MEASURE = "distinct (image digest, operation history) hashes"
 COMPONENTS = {"real": ["smpl_extract (lazy children/files/SAT realisation, memoisation, in-place renaming, data-stream cursors)"],
               "stub": ["SimFile / virtual FS input with a write monitor", "sandboxed output"]}
 ASSUMPTIONS = ["history length <= 12", "reference = a fresh image object per operation over identical bytes"]
-EXPECTED_PROBES = ["export_after_export", "leaf_before_parent", "export_before_any_ls", "invalid_path_first", "akai", "roland", "cdda", "ls_after_export", "positional_path", "library_touch"]
+EXPECTED_PROBES = ["export_after_export", "leaf_before_parent", "export_before_any_ls", "invalid_path_first", "akai", "roland", "cdda", "ls_after_export", "positional_path", "library_touch", "same_tail_different_parent"]
 SHRINK = {"max_attempts": 120, "max_seconds": 120.0, "simple_values": {"policy": ["contiguous"], "block": [4096]}}
 
 
@@ -63,6 +63,14 @@ def gen(rng: random.Random, tier: str, index: int) -> dict:
         model = gen_roland(rng, max_samples=4, max_perf=2, max_vols=2, max_clusters=2)
     else:
         model = gen_cdda_model(rng)
+    if fmt == "akai" and len(model["partitions"]) >= 2 and model["partitions"][0]["volumes"] and model["partitions"][1]["volumes"] and rng.random() < 0.5:
+        # the same volume (and file) name in two partitions: equal names at equal depth under different parents
+        va, vb = rng.choice(model["partitions"][0]["volumes"]), rng.choice(model["partitions"][1]["volumes"])
+        vb["name"] = va["name"]
+        if va["files"] and vb["files"] and rng.random() < 0.7:
+            fb = rng.choice(vb["files"])
+            if not any(f is not fb and f["name"] == va["files"][0]["name"] for f in vb["files"]):
+                fb["name"] = va["files"][0]["name"]
     sc = {"fmt": fmt, "model": model, "block": rng.choice([4096, 4096, 510, 64])}
     paths = _all_paths(sc)
     ops: List[list] = []
@@ -84,6 +92,14 @@ def gen(rng: random.Random, tier: str, index: int) -> dict:
             elif v < 0.25:
                 p = p.replace("/", "\\")
             ops.append(["ls", p])
+    # two successive requests whose paths differ at an earlier level and agree at a deeper one
+    twins = [(a, b) for a in paths for b in paths if a != b and "/" in a and a.count("/") == b.count("/")
+             and a.split("/", 1)[1] == b.split("/", 1)[1]]
+    if twins and rng.random() < 0.6:
+        a, b = rng.choice(twins)
+        at = rng.randint(0, len(ops))
+        ops[at:at] = [["ls", a], ["ls", b]] + ([["ls", a]] if rng.random() < 0.3 else [])
+        sc["twin_paths"] = True
     sc["ops"] = ops
     return sc
 
@@ -145,6 +161,8 @@ def run(sc: dict) -> RunResult:
     fmt = sc["fmt"]
     res.probes[fmt] += 1
     ops = sc["ops"]
+    if sc.get("twin_paths"):
+        res.probes["same_tail_different_parent"] += 1
     # probes on the history
     seen_export = False
     listed = set()
